@@ -81,6 +81,8 @@ def run(ctx):
     ctx.rule("R18.s", "selector model, compute_default: the computed default (each item of it, for a ListSelector) is added to the objects in force exactly once", floor=1)
     ctx.rule("R18.o", "selector model, objects setter: assigning the same labelled objects in another order / the same mapping / other labels / a list / an empty mapping: names and the objects "
                       "in force become exactly what was assigned, in that order (equality of dicts ignores order; nothing assigned is ever dropped as 'already there')", floor=1)
+    ctx.rule("R18.v", "setter model: Parameter.__set__ interpreted abstractly on every combination (578) of route x constant/readonly x validation outcome x identity x reference mode x watchers x "
+                      "batching: every assignment is validated, also one that re-assigns the identical object (the membership check of a Selector is its validation, and the objects may have changed)", floor=1)
     ctx.rule("R18.a", "in every listed mutator each mutation of the proxy list has, in the same block, the same mutation of _objects with identical arguments (and vice versa); update only delegates", floor=8)
     ctx.rule("R18.b", "ListProxy.pop returns, on every path, a value obtained from a .pop(...) on one of the stores", floor=2)
     ctx.rule("R18.c", "where a mutator rebuilds names after removing an object, the filter keeps the entries NOT identical to it (pop and remove agree)", floor=2)
@@ -429,5 +431,7 @@ def _rule_g(ctx):
     selector_model.report(ctx, "R18.k")
     selector_model.report_compute_default(ctx, "R18.s")
     selector_model.report_objects_setter(ctx, "R18.o")
+    from checks import setter_model
+    setter_model.report(ctx, "C18", "R18.v")
     from checks import instcopy_model
     instcopy_model.report(ctx, "R18.l")
